@@ -85,6 +85,31 @@ def run(ctx, rep):
     r4(ctx, rep)
     r5(ctx, rep)
     r7(ctx, rep)
+    r8(ctx, rep)
+
+
+def r8(ctx, rep):
+    """'The same result for the same string and predicate declarations': the parser reads the declarations through
+    `predicates.get(coords)`.  That a store with given contents answers that lookup the same way whatever its history (built
+    directly, by add/remove, by index or slice re-declaration) is the black-box step of the predicate store (ordset; = C18.R9)."""
+    from .. import ordset
+    import re as _re
+    m = ctx.m
+    R8 = rep.rule('C13.R8', 'the predicate store the parsers resolve symbols in finds every declared predicate by its coordinates after every operation of its '
+                            'mutator API on every small state (black-box step of lang/collect.Predicates, shared with C18.R9): equal declarations, equal lookups')
+    res, cons = ordset.fold_predicates_blackbox(m, deep=rep.tier == 'thorough')
+    rep.consult(*cons)
+    seen = set()
+    for ok, op, case, detail in res:
+        rep.instance(R8, ok=ok, nontrivial=('Predicates', case))
+        if not ok:
+            kinds = _re.findall(r'\[([a-z-]+)\]', detail) or ['state']
+            key = (op, kinds[0])
+            if key in seen:
+                continue
+            seen.add(key)
+            rep.finding(R8, f'C13.R8/Predicates/{op}/{kinds[0]}', m.relfile('pytableaux.lang.collect'), f'Predicates.{op}', f'{case}: {detail}')
+    rep.floor('C13.R8', 'store operation x state cases', len(res), 600)
 
 
 def r7(ctx, rep):
